@@ -16,8 +16,8 @@ import (
 	authtypes "github.com/cosmos/cosmos-sdk/x/auth/types"
 	gogotypes "github.com/cosmos/gogoproto/types"
 	"github.com/ethereum/go-ethereum/common"
-	"github.com/ethereum/go-ethereum/crypto"
 	ethtypes "github.com/ethereum/go-ethereum/core/types"
+	"github.com/ethereum/go-ethereum/crypto"
 
 	"mods.irisnet.org/modules/token/contracts"
 	tokenkeeper "mods.irisnet.org/modules/token/keeper"
@@ -543,6 +543,81 @@ func (r *R) hookSwap(ctx sdk.Context, a map[string]string) string {
 	return class
 }
 
+// emitter maps `K<n>` (a contract created by the module account) or `U<n>` (any other
+// address: a router, a foreign contract) to an address.
+func (r *R) emitter(s string) (common.Address, bool, bool) {
+	if c, ok := r.kaddrs[s]; ok {
+		return c, true, true
+	}
+	if strings.HasPrefix(s, "U") && allDigits(s[1:]) {
+		i, _ := strconv.Atoi(s[1:])
+		return common.BigToAddress(big.NewInt(int64(0xC000 + i))), false, true
+	}
+	return common.Address{}, false, false
+}
+
+// evmTx plays one EVM transaction sent to `target` whose execution made the listed contracts
+// emit SwapToNative logs (a contract of ours burns the caller's balance before emitting, as
+// Token.sol does; other addresses just emit), then runs the real PostTxProcessing hook on the
+// receipt. Any failure reverts the transaction.
+func (r *R) evmTx(ctx sdk.Context, a map[string]string) string {
+	target, _, ok := r.emitter(a["target"])
+	if !ok {
+		hx.Fail("bad target %q", a["target"])
+	}
+	type lg struct {
+		em     common.Address
+		ours   bool
+		from   common.Address
+		fromOK bool
+		to     string
+		amt    *big.Int
+	}
+	var logs []lg
+	for _, e := range strings.Split(hx.Undash(a["logs"]), ",") {
+		if e == "" {
+			continue
+		}
+		f := strings.Split(e, ":")
+		if len(f) != 4 {
+			hx.Fail("bad log %q", e)
+		}
+		em, ours, ok := r.emitter(f[0])
+		if !ok {
+			hx.Fail("bad emitter %q", f[0])
+		}
+		from, fok := r.eth(f[1])
+		logs = append(logs, lg{em, ours, from, fok, hx.Undash(f[2]), bigOf(f[3])})
+	}
+	class, _ := hx.Try(ctx, func(cc sdk.Context) error {
+		ev := contracts.ERC20TokenContract.ABI.Events[contracts.EventSwapToNative]
+		receipt := &ethtypes.Receipt{}
+		sender := common.Address{}
+		for _, l := range logs {
+			from, amt := l.from, l.amt
+			if l.ours {
+				if !l.fromOK || amt.Sign() < 0 || l.to == "" || !r.evm.HasContract(l.em) {
+					return errors.New("execution reverted")
+				}
+				if !r.evm.BurnDirect(l.em, from, amt) {
+					return errors.New("ERC20: burn amount exceeds balance")
+				}
+			} else if amt.Sign() < 0 {
+				amt = new(big.Int)
+			}
+			sender = from
+			data, err := ev.Inputs.Pack(from, r.bech(l.to), amt)
+			if err != nil {
+				return err
+			}
+			receipt.Logs = append(receipt.Logs, &ethtypes.Log{Address: l.em, Topics: []common.Hash{ev.ID}, Data: data})
+		}
+		msg := ethtypes.NewMessage(sender, &target, 0, big.NewInt(0), 3000000, big.NewInt(0), big.NewInt(0), big.NewInt(0), nil, ethtypes.AccessList{}, false)
+		return r.env.Token.Hooks().PostTxProcessing(cc, msg, receipt)
+	})
+	return class
+}
+
 func (r *R) Exec(ctx sdk.Context, line string) (sdk.Context, string) {
 	f := strings.Fields(line)
 	a := hx.Args(f[2:])
@@ -586,6 +661,8 @@ func (r *R) Exec(ctx sdk.Context, line string) (sdk.Context, string) {
 		deliver(&v1.MsgSwapFromERC20{WantedAmount: r.coin(a), Sender: r.bech(a["sender"]), Receiver: r.bech(a["receiver"])})
 	case "hook_swap":
 		class = r.hookSwap(ctx, a)
+	case "evm_tx":
+		class = r.evmTx(ctx, a)
 	case "evm_fault":
 		switch a["mode"] {
 		case "none", "mint_revert", "mint_noop", "mint_short", "burn_revert", "burn_noop", "call_err":
